@@ -151,6 +151,7 @@ class OpsMixin(object):
         if k in cache:
             return cache[k]
         inst = InstV(ci, label=path)
+        inst.birth = len(self.path_conds)
         cache[k] = inst
         init = ci.lookup("__init__")
         if init is not None:
@@ -237,6 +238,14 @@ class OpsMixin(object):
             if attr == "deriv":
                 return DerivV(base.f, base.order + 1)
             self.err(node, "attribute %s of gradient wrapper" % attr)
+        if isinstance(base, LookupV):
+            ci = base.ld.valv.ci if isinstance(base.ld.valv, InstV) else None
+            if ci is not None:
+                m = ci.lookup(attr)
+                if m is not None and not m.is_property:
+                    return BoundBuiltin(base, attr)
+                return self.lookup_attr(base, attr, node)
+            return BoundBuiltin(base, attr)
         if isinstance(base, (ListV, DictV, BufV, StrV, SeqV, SetV, LoopDictV, LookupV, Const, SortedV, NTClassV, Num)) \
                 or type(base).__name__ in ("LoggerV", "SetAccV", "IterV"):
             return BoundBuiltin(base, attr)
@@ -348,6 +357,8 @@ class OpsMixin(object):
         if isinstance(base, SeqV):
             return self.seq_elem(base, self.num(idx, node))
         if isinstance(base, Opaque):
+            if isinstance(idx, Num):
+                return self.seq_elem(SeqV("opaque", path=base.path, elem_class=self.elem_classes.get(base.path)), idx.rf)
             return Opaque(("item", base.path, idx.key()))
         if isinstance(base, LoopDictV):
             return LookupV(base, idx, None)
@@ -366,6 +377,13 @@ class OpsMixin(object):
         self.err(node, "subscript of %r" % (base,))
 
     def slice(self, base, lo, hi, node=None):
+        if isinstance(base, Opaque) and base.path in self.elem_classes or (isinstance(base, SeqV) and base.kind == "opaque"):
+            seq = base if isinstance(base, SeqV) else SeqV("opaque", path=base.path, elem_class=self.elem_classes.get(base.path))
+            lo_rf = self.num(lo, node) if lo is not None else ep.const(0)
+            hi_rf = self.num(hi, node) if hi is not None else self.seq_len(seq)
+            var = self.fresh_sym("s")
+            return SeqV("family", var=var, lo=lo_rf, hi=hi_rf, elem=self.seq_elem(seq, ep.sym(var)))
+
         def cint(v):
             if v is None:
                 return None
@@ -462,6 +480,7 @@ class OpsMixin(object):
             return self.instantiate(fn.ci, args, kwargs, node)
         if isinstance(fn, LocalClassV):
             inst = InstV(fn.ci)
+            inst.birth = len(self.path_conds)
             inst.closure = fn.closure
             init = fn.ci.lookup("__init__")
             if init is not None:
@@ -491,6 +510,9 @@ class OpsMixin(object):
         if isinstance(fn, Opaque):
             if kwargs:
                 self.err(node, "keyword call of opaque callable")
+            if not all(isinstance(a, (Num, Opaque, Phi, LookupV)) for a in args) or not args:
+                self.log_event(("call", fn.path))
+                return Opaque(("call", fn.path, tuple(a.key() if isinstance(a, V) else repr(a) for a in args)))
             nums = [self.num(a, node) for a in args]
             self.log_event(("eval", fn.path))
             return Num(ep.app(fn.path, nums))
@@ -530,9 +552,17 @@ class OpsMixin(object):
         if self.is_exception_class(ci):
             return ExcV(ClassV(ci), args)
         inst = InstV(ci)
+        inst.birth = len(self.path_conds)
         init = ci.lookup("__init__")
         if init is not None:
             self.call_function(FuncV(init, selfv=inst), args, kwargs, node)
+        elif any(isinstance(c, ExternalClass) and c.name.endswith("partial") for c in ci.mro()):
+            inst.attrs["func"] = args[0]
+            inst.attrs["args"] = ListV(list(args[1:]), "tuple")
+            d = DictV()
+            for k, v in kwargs.items():
+                d.items[Const(k).key()] = (Const(k), v)
+            inst.attrs["keywords"] = d
         return inst
 
     def is_exception_class(self, ci):
@@ -748,6 +778,23 @@ class OpsMixin(object):
             return StrV(SCat(parts))
         if isinstance(seq, ChunkListV):
             return StrV(SJoinItems(sepn, seq))
+        if isinstance(seq, SeqV) and seq.kind == "concat":
+            first = seq.parts[0]
+            if not (isinstance(first, ListV) and first.items):
+                self.err(node, "join over a concatenation that starts with a symbolic part")
+            parts = [to_node(self.join(sep, first, node))]
+            for part in seq.parts[1:]:
+                if isinstance(part, ListV):
+                    for it in part.items:
+                        parts.append(sepn)
+                        parts.append(to_node(it))
+                elif isinstance(part, SeqV) and part.kind in ("family", "seqmap"):
+                    var, lo, hi, elem, sv = self.loop_binder(part, node)
+                    body = SCat([sepn, to_node(elem)])
+                    parts.append(SSeqRep(var, sv.key(), body) if sv is not None else SRep(var, lo, hi, body))
+                else:
+                    self.err(node, "join over %r" % (part,))
+            return StrV(SCat(parts))
         if isinstance(seq, SeqV) and seq.kind in ("family", "seqmap"):
             var, lo, hi, elem, sv = self.loop_binder(seq, node)
             return StrV(SJoin(sepn, var, lo, hi, sv, to_node(elem)))
